@@ -80,3 +80,64 @@ def boundary_secrets(rng, n_random):
         s[18] &= 63
         out.append(bytes(s))
     return out
+
+
+# ---------------------------------------------------------------------------------------------------
+# State perturbation: calls that are no-ops in the abstract model (the outputs of an operation depend on
+# its arguments, the enabled mask and the injected functions - on nothing else the library may remember),
+# woven into an existing script.  Every inserted call is judged by the specification like any other.
+
+API_OPS = ("create", "encode", "decode", "decodex", "store", "load", "crypt", "keygen", "bday", "feat", "isenc", "free")
+PERTURB_H, PERTURB_S = 4091, 4090      # registers no script uses
+
+
+def perturb_lines(lines, rnd):
+    """rnd: a random.Random.  Returns the script with perturbing calls inserted before some API calls:
+    the current dependency set injected again, the mask changed and restored, an unrelated phrase decoded
+    (not between decoder calls: the agreement relations compare adjacent ones), an unrelated seed created and
+    freed, the allocator refusing for the duration of the call."""
+    out = []
+    mask, depset, fail = 0, "AAAAAAAA", 0
+    last_rand, last_time = None, None
+    for line in lines:
+        tok = line.split()
+        op = tok[0] if tok else ""
+        if op == "enable" and len(tok) > 1:
+            try:
+                mask = int(tok[1]) & 7
+            except ValueError:
+                pass
+        elif op == "inject" and len(tok) > 1:
+            depset = tok[1]
+        elif op == "env":
+            for t in tok[1:]:
+                if t.startswith("rand="):
+                    last_rand = t
+                elif t.startswith("time="):
+                    last_time = t
+                elif t.startswith("fail="):
+                    try:
+                        fail = int(t[5:])
+                    except ValueError:
+                        fail = 1
+        if op in API_OPS and rnd.random() < 0.34:
+            k = rnd.randrange(5)
+            if k == 0:
+                out.append("inject " + depset)
+            elif k == 1:
+                other = rnd.choice([m for m in range(8) if m != mask])
+                out += ["enable %d" % other, "enable %d" % mask]
+            elif k == 2 and op not in ("decode", "decodex"):
+                lid = rnd.choice(codec.LANG_IDS)
+                idx = codec.words_of(bytes(rnd.randrange(256) for _ in range(18)) + bytes([rnd.randrange(64)]), rnd.randrange(1024), 0, 0)
+                out += ["str %d %s" % (PERTURB_S, hx(codec.phrase(lid, idx))), "decode %d 0 %d" % (PERTURB_S, PERTURB_H), "free %d" % PERTURB_H]
+            elif k == 3:
+                out += ["env rand=%s time=%d" % (hx(bytes(rnd.randrange(256) for _ in range(19))), EPOCH + rnd.randrange(1024) * STEP + 3),
+                        "create %d 0" % PERTURB_H, "free %d" % PERTURB_H]
+                if last_rand or last_time:
+                    out.append("env " + " ".join(x for x in (last_rand, last_time) if x))
+            elif k == 4 and fail == 0:
+                out += ["env fail=%d" % rnd.choice([1, 1, 2]), line, "env fail=0"]
+                continue
+        out.append(line)
+    return out
